@@ -130,6 +130,7 @@ def main(argv=None):
     ap.add_argument("-j", type=int, default=min(16, os.cpu_count() or 4))
     args = ap.parse_args(argv)
     prop = args.prop.upper()
+    os.environ["VERIF_TIER_EFFECTIVE"] = "thorough" if args.tier == "thorough" else "quick"
     seed = int(os.environ.get("VERIF_SEED", "0") or 0)
 
     if args.replay:
